@@ -18,6 +18,10 @@
 #include "core/AsmContext.h"
 #include "core/UtilContext.h"
 #include "fileio/file.h"
+#if SCN == 21
+#include <readline/readline.h>
+#include <readline/history.h>
+#endif
 
 extern "C" { unsigned g_pc; int g_pc_known; int g_reset_calls; int g_break_io_seen; unsigned g_load_addr; int g_loaded; int g_prompted; }
 /* concrete command lines (symbolic argv words make CBMC's symbolic execution explore the whole command interpreter):
@@ -46,8 +50,11 @@ static const char *const g_cmd[] = { "naken_util", "a.hex", "-address" };
 static const char *const g_cmd[] = { "naken_util", "-break_io" };
 #elif SCN == 16
 static const char *const g_cmd[] = { "naken_util", "a.hex", "-sim_serial", "1" };
+#elif SCN == 21
+/* the shipped configuration (-DREADLINE): one command, then end of input without `quit` */
+static const char *const g_cmd[] = { "naken_util", "a.hex" };
 #endif
-#if SCN >= 11
+#if SCN >= 11 && SCN < 21
 #define LASTOPT 1
 #endif
 #define NWORDS ((int)(sizeof(g_cmd) / sizeof(g_cmd[0])))
@@ -106,6 +113,14 @@ uint8_t Memory::read8(uint32_t a) { return 0; }
 void Memory::write8(uint32_t a, uint8_t d) {}
 void tokens_close(AsmContext *) {}
 void tokens_reset(AsmContext *) {}
+#if SCN == 21
+extern "C" { int g_rl_calls; rl_completion_func_t *rl_attempted_completion_function; int rl_attempted_completion_over; char *rl_line_buffer; }
+static char g_line1[16] = "registers";
+/* readline contract: the first call delivers one command line, every later call reports end of input (NULL) */
+extern "C" char *readline(const char *prompt) { g_rl_calls++; g_prompted = 1; return g_rl_calls == 1 ? g_line1 : (char *)0; }
+extern "C" void add_history(const char *line) {}
+extern "C" char **rl_completion_matches(const char *text, rl_compentry_func_t *entry) { return 0; }
+#endif
 extern "C" {
 #ifdef LASTOPT
 void exit(int code) { CANARY("exit() reachable"); ASSUME(0); }
@@ -132,7 +147,10 @@ extern "C" void h_utilmain()
   for (int i = 0; i < 8; i++) argv[i] = (i < NWORDS) ? (char *)&g_cmd[i][0] : (char *)0;      /* argv[argc] == NULL */
   g_pc = 0; g_pc_known = 0; g_reset_calls = 0; g_loaded = 0; g_prompted = 0;
   int r = naken_util_main(argc, argv);
-#ifndef LASTOPT
+#if SCN == 21
+  OBL(g_rl_calls <= 3, "C17.cli: end of input ends the session (the last command is not repeated)");
+  CANARY("h_utilmain end");
+#elif !defined(LASTOPT)
   OBL(g_prompted, "C19.cli: the command line is accepted and the first prompt is reached");
 #if SCN != 5
   OBL(g_pc_known && g_pc == (SCN == 3 ? 77u : 0x1234u), "C19.cli: with -set_pc A the program counter at the first prompt is A (nothing resets it afterwards)");
